@@ -485,6 +485,15 @@ func (e *SEnv) resolveType(s string) types.Type {
 				}
 			}
 		}
+		// "pkg.T" evaluated inside package pkg itself
+		if pk := e.pkg(); pk != nil {
+			q := pk.Name() + "."
+			if k := strings.Index(s, q); k >= 0 && (k == 0 || !isPathCh(s[k-1])) {
+				if tv2, err2 := types.Eval(e.vc.p.fset, pk, token.NoPos, s[:k]+s[k+len(q):]); err2 == nil {
+					return tv2.Type
+				}
+			}
+		}
 		e.fail("type %q: %v", s, err)
 	}
 	return tv.Type
@@ -852,6 +861,20 @@ func (e *SEnv) call(x *SCall) Val {
 			key := "g.calls." + lab
 			vc.ensureKey(key, "Int")
 			return intVal(vc.get(e.cur, key))
+		case "at":
+			// at(Label, e): e evaluated in the state right after the most recent
+			// call counted under Label (the call must dominate this point)
+			lab := x.Args[0].(*SIdent).Name
+			snap, ok := vc.lastState[lab]
+			if !ok {
+				e.fail("at(%s, ...): no counted call seen", lab)
+			}
+			n := e.sub()
+			if n.locSt == nil {
+				n.locSt = e.cur
+			}
+			n.cur = snap
+			return n.eval(x.Args[1])
 		case "last":
 			// last(Label): result of the most recent call counted under Label
 			lab := x.Args[0].(*SIdent).Name
@@ -861,11 +884,8 @@ func (e *SEnv) call(x *SCall) Val {
 			}
 			v := Val{T: t}
 			for i := range vc.p.lay.of(t).Kinds {
-				tm, ok := e.cur.v[fmt.Sprintf("g.last.%s:%d", lab, i)]
-				if !ok {
-					e.fail("last(%s): not available on every path to this point", lab)
-				}
-				v.S = append(v.S, tm)
+				// (unconstrained on paths where no such call happened)
+				v.S = append(v.S, vc.get(e.cur, fmt.Sprintf("g.last.%s:%d", lab, i)))
 			}
 			return v
 		case "clock":
@@ -898,6 +918,15 @@ func (e *SEnv) call(x *SCall) Val {
 			v := arg(0)
 			t := e.resolveType(exprText(x.Args[1]))
 			return boolVal(tEq(v.S[0], tInt(int64(vc.p.typeID(t)))))
+		case "iface":
+			// iface(p): the interface value obtained by converting pointer p
+			v := arg(0)
+			pt, ok := types.Unalias(v.T).Underlying().(*types.Pointer)
+			if !ok {
+				e.fail("iface(p): pointer expected")
+			}
+			_ = pt
+			return Val{T: types.NewInterfaceType(nil, nil), S: []Term{tInt(int64(vc.p.typeID(v.T))), v.S[0], v.S[1]}}
 		case "isnil":
 			return boolVal(tEq(arg(0).S[0], "0"))
 		case "ref":
